@@ -25,6 +25,7 @@ func init() {
 //	          2 remove (RemoveAll)            3 unlink + create again (new inode, same name)
 //	          4 hard link: arg = new name     5 overwrite in place (same inode)
 //	          6 chmod 0600 <-> 0644           7 rename to arg
+//	          8 flip only setuid / setgid / sticky (arg[0] mod 3) of a file or directory
 //	destSel = 0 the persistent destination, 1 a fresh destination
 //
 // output: ((send_err recv_err hung src_raw prior_raw dest_raw) ...) one record per sync
@@ -98,6 +99,13 @@ func run0102(in Sx) (out Sx) {
 				}
 			case 7:
 				os.Rename(p, filepath.Join(src, arg.Str()))
+			case 8:
+				// flip ONLY a special bit (chmod u+s / g+s / +t or the reverse) of a file or directory:
+				// size, mtime and permission bits stay
+				if fi, err := os.Lstat(p); err == nil && (fi.Mode().IsRegular() || fi.IsDir()) {
+					bit := []os.FileMode{os.ModeSetuid, os.ModeSetgid, os.ModeSticky}[int(arg.B[0])%3]
+					os.Chmod(p, (fi.Mode()&(os.ModePerm|os.ModeSetuid|os.ModeSetgid|os.ModeSticky))^bit)
+				}
 			}
 		}
 		dest := dest0
@@ -204,6 +212,7 @@ func genC01Hist(g *Gen) {
 		var steps []Sx
 		nops := 0
 		hitFirst := false
+		bitsOnly := false
 		for s := 0; s < nsync; s++ {
 			var ops []Sx
 			if s > 0 || r.Chance(20) {
@@ -221,7 +230,10 @@ func genC01Hist(g *Gen) {
 						continue
 					}
 					p := Pick(r, pool)
-					code := Pick(r, []int{1, 1, 1, 2, 3, 3, 4, 5, 6, 7})
+					code := Pick(r, []int{1, 1, 1, 2, 3, 3, 4, 5, 6, 7, 8, 8, 8})
+					if code == 8 && r.Bool() {
+						p = Pick(r, all) // directories too
+					}
 					arg := B(fillContent(r, 1+r.Intn(9)))
 					if code == 4 || code == 7 {
 						arg = S(p + Pick(r, []string{".n", "~", "2"}))
@@ -232,6 +244,9 @@ func genC01Hist(g *Gen) {
 							hitFirst = true
 						}
 					}
+					if code == 8 {
+						bitsOnly = true
+					}
 					ops = append(ops, L(NI(code), S(p), arg))
 					nops++
 				}
@@ -240,6 +255,9 @@ func genC01Hist(g *Gen) {
 		}
 		if hitFirst {
 			cls += "+first-name-replaced"
+		}
+		if bitsOnly {
+			cls += "+special-bits-only"
 		}
 		in := L(ViewSx(view), Bool(reuse), L(steps...))
 		g.Emit(0x0102, in, nops > 0, cls)
